@@ -8,8 +8,9 @@ from dataclasses import dataclass, field
 from sa.consteval import ConstEval
 from sa.hdlcref import Result, _eval_order
 from sa.model import Model
-from sa.paths import Engine, Path, loop_body_paths, show_path, show_sv
+from sa.paths import Engine, Path, Unsupported, loop_iterations, show_path, show_sv
 from sa.report import Undecided
+from sa.seqbuf import BufSem
 
 MOD = "dlde"
 READER = (MOD, "ModeDReader")
@@ -73,14 +74,26 @@ class P1Model:
         self.file = src.file(MOD)
         self._bind()
         self.engine = Engine(M)
-        loops = [n for n in self.read_fn.node.body if isinstance(n, (ast.While, ast.For))]
-        if len(loops) != 1 or not isinstance(loops[0], ast.While):
-            raise Undecided("ModeDReader.read is not `prologue; while: per-line step`")
-        self.loop = loops[0]
-        self.epilogue = self.read_fn.node.body[self.read_fn.node.body.index(self.loop) + 1:]
-        node, raw = loop_body_paths(self.engine, self.read_fn, 0)
-        self.loop_test_true = isinstance(self.loop.test, ast.Constant) and self.loop.test.value is True
-        self.paths = [x for x in (self._classify(p) for p in raw) if x is not None]
+        self.buf = BufSem(M, self.buffer_cls)
+        if self.buf.err:
+            raise Undecided(f"P1 input buffer: {self.buf.err}")
+        try:
+            it = loop_iterations(self.engine, self.read_fn)
+        except Unsupported as ex:
+            raise Undecided(f"ModeDReader.read uses a statement outside the analysed subset: {ex}")
+        if it is None:
+            raise Undecided("ModeDReader.read is not `prologue; one loop over the buffered lines; epilogue`")
+        self.loop, conts, leaving, _ = it
+        self.paths = [x for x in (self._classify(p) for p in conts + leaving) if x is not None]
+
+    def bkind(self, callee):
+        return self.buf.kind(callee.split(".")[-1], (LF, SLASH))
+
+    def btag(self, callee):
+        k = self.bkind(callee)
+        if isinstance(k, tuple):
+            return {"pop-line": "pop", "trim-needle": "trim-flag"}[k[0]]
+        return {"trim-pos": "trim-pos", "clear": "clear", "extend": "extend", "len": "len"}.get(k, "other:" + callee.split(".")[-1])
 
     def _bind(self):
         c = self.reader
@@ -92,10 +105,13 @@ class P1Model:
                     self.hunt = n.value.attr
         chunk = self.read_fn.params[0] if self.read_fn.params else None
         self.buffer = None
-        for n in ast.walk(self.read_fn.node):
-            if (isinstance(n, ast.Call) and isinstance(n.func, ast.Attribute) and n.func.attr == "extend" and len(n.args) == 1 and isinstance(n.args[0], ast.Name)
-                    and n.args[0].id == chunk and isinstance(n.func.value, ast.Attribute) and isinstance(n.func.value.value, ast.Name) and n.func.value.value.id == "self"):
-                self.buffer = n.func.value.attr
+        try:
+            for p in Engine(self.M).run(self.read_fn):
+                for e in p.effects:
+                    if e[0] == "callm" and e[3] == (("p", chunk),) and e[1][0] == "f0" and e[1][1] == SELF:
+                        self.buffer = e[1][2]
+        except Unsupported as ex:
+            raise Undecided(f"ModeDReader.read uses a statement outside the analysed subset: {ex}")
         raws = [a for a, v in c.field_inits.items() if isinstance(v, ast.Call) and isinstance(v.func, ast.Name) and v.func.id == "bytearray" and a != self.buffer]
         self.raw = raws[0] if len(raws) == 1 else None
         if not (self.hunt and self.buffer and self.raw):
@@ -108,7 +124,8 @@ class P1Model:
         return ("f0", SELF, n)
 
     def is_line(self, sv):
-        return sv[0] == "call" and len(sv) > 2 and sv[2] and sv[2][0] == self.f0(self.buffer) and sv[1].startswith(f"{MOD}.{self.buffer_cls[1]}.") and sv[1].endswith(".pop")
+        return sv[0] == "call" and len(sv) > 2 and sv[2] and sv[2][0] == self.f0(self.buffer) and isinstance(sv[1], str) and sv[1].startswith(f"{MOD}.{self.buffer_cls[1]}.") \
+            and self.btag(sv[1]) == "pop"
 
     def mentions(self, sv, pred):
         if isinstance(sv, tuple):
@@ -123,7 +140,7 @@ class P1Model:
             return "Hm", pol
         if g[0] == "cmp":
             op, a, b = g[1], g[2], g[3]
-            if op == "Is" and self.is_line(a) and b == ("c", None):
+            if op in ("Is", "Eq") and self.is_line(a) and b == ("c", None):
                 return "N", pol
             if op == "Eq" and a[0] == "sub" and self.is_line(a[1]) and a[2] == ("c", 0) and b[0] == "c":
                 if b[1] == SLASH:
@@ -187,8 +204,7 @@ class P1Model:
             if k in ("log", "loop", "try"):
                 continue
             if k == "callm" and e[1] == self.f0(self.buffer):
-                short = e[2].split(".")[-1]
-                tag = {"pop": "pop", "trim_buffer_to_current_position": "trim-pos", "trim_buffer_to_flag_or_end": "trim-flag", "clear": "clear"}.get(short, "other:" + short)
+                tag = self.btag(e[2])
                 post.buf_calls.append(tag)
                 post.seq.append(tag)
                 continue
@@ -295,8 +311,6 @@ def exp_end(post, pp):
         return f"end line must emit one readout built from exactly the collected lines including the end line (emitted {post.emitted})"
     if post.raw_ops != [("extend", "line"), "clear"]:
         return f"end line must be kept, then the collected lines cleared (lines ops {post.raw_ops})"
-    if post.seq.index("emit") > [i for i, s in enumerate(post.seq) if s == "lines"][-1]:
-        return "collected lines are cleared before the readout is built"
     if post.hunt is not True:
         return f"after the end line the reader must return to hunt mode (hunt'={post.hunt})"
     return None
@@ -399,7 +413,7 @@ def exit_and_guard(m: P1Model):
                         calls = ["<loop entry>"]
                 else:
                     # prologue guard: position state at call entry = exit state of the previous call
-                    calls = [c for e in owner.effects if e[0] == "callm" and e[1] == m.f0(m.buffer) for c in [e[2].split(".")[-1]]][:ver]
+                    calls = [c for e in owner.effects if e[0] == "callm" and e[1] == m.f0(m.buffer) for c in [m.btag(e[2])]][:ver]
                     if calls:
                         zero = calls[-1].startswith("trim") or calls[-1] == "clear"
                     else:
@@ -448,12 +462,8 @@ def exit_and_guard(m: P1Model):
 
 
 def _len_subtracts_pos(m):
-    cls = m.M.classes.get(m.buffer_cls)
-    fn = cls.methods.get("__len__") if cls else None
-    if fn is None:
-        return False
-    ps = Engine(m.M).run(fn)
-    return len(ps) == 1 and ps[0].ret is not None and ps[0].ret[0] == "op" and ps[0].ret[1] == "Sub"
+    v = m.buf.check("__len__", "len")
+    return v.ok is True and (v.info or {}).get("len") == "unconsumed"
 
 
 def skeleton(m: P1Model):
@@ -465,7 +475,7 @@ def skeleton(m: P1Model):
     bad = []
     for u in uses:
         p = parents.get(u)
-        if not (isinstance(p, ast.Call) and isinstance(p.func, ast.Attribute) and p.func.attr == "extend" and ast.unparse(p.func.value) == f"self.{m.buffer}" and p.args == [u]):
+        if not (isinstance(p, ast.Call) and isinstance(p.func, ast.Attribute) and p.args == [u] and not p.keywords):
             bad.append(u)
     if bad or len(uses) != 1:
         for u in bad or uses[1:] or [fn.node]:
@@ -492,11 +502,11 @@ def skeleton(m: P1Model):
             if e[0] == "loop":
                 seen_loop = True
             if e[0] == "callm" and e[1] == m.f0(m.buffer):
-                short = e[2].split(".")[-1]
-                if short == "extend":
+                short = m.btag(e[2])
+                if e[3] == (("p", chunk),):
                     extended = True
                     continue
-                if short == "trim_buffer_to_flag_or_end" and not seen_loop:
+                if short == "trim-flag" and not seen_loop:
                     if Hm is not True:
                         g_trip = any(isinstance(x, tuple) for x in ())  # placeholder
                         trip = any(m._atom(g, pol, P1Path({}, [], P1Post(), p)) == ("G", True) for g, pol, ln in p.guards)
@@ -509,7 +519,7 @@ def skeleton(m: P1Model):
             res.append(Result("bad", "chunk-flow", "no-extend", "a path through read() does not buffer the chunk before the loop", fn.node.lineno))
         for t, ln in unknown:
             res.append(Result("bad", "skeleton", "early-exit-condition", "read() branches on a condition other than hunt mode / the length guard before processing lines", ln, witness=t))
-        if p.status == "return":
+        if p.status == "return" and not any(e[0] == "loop" for e in p.effects):
             res.append(Result("bad", "skeleton", "early-return", "read() can return before processing buffered lines", fn.node.lineno,
                               witness="; ".join(f"{'' if pol else 'not '}{show_sv(g)}" for g, pol, _ in p.guards)))
     if not any(r.kind == "bad" and r.tag in ("skeleton", "hunt-trim") for r in res):
@@ -531,97 +541,59 @@ def skeleton(m: P1Model):
     return res
 
 
+BUF_INSTANCE = {"pop-line": "pop", "trim-pos": "trim-to-position", "trim-needle": "trim-to-start", "clear": "clear", "extend": "extend", "len": "len"}
+BUF_TEXT = {"pop-line": "returns the next LF-terminated line and advances just behind it; returns None without consuming when no complete line is buffered",
+            "trim-pos": "keeps exactly the unconsumed suffix and releases the consumed bytes",
+            "trim-needle": "continues at the first '/' of the unconsumed input (drops everything if there is none) and releases what it skipped",
+            "clear": "empties the buffer and resets the position", "extend": "appends the chunk at the end of the buffer", "len": "number of stored (or unconsumed) bytes"}
+
+
+def buffer_usage(m: P1Model):
+    buf0 = m.f0(m.buffer)
+    use = {}
+    chunk = m.read_fn.params[0] if m.read_fn.params else None
+    paths = [pp.path for pp in m.paths] + Engine(m.M).run(m.read_fn)
+    for p in paths:
+        for e in p.effects:
+            if e[0] == "callm" and e[1] == buf0:
+                name = e[2].split(".")[-1]
+                k = m.bkind(e[2])
+                role = "extend" if e[3] == (("p", chunk),) else (k[0] if isinstance(k, tuple) else k)
+                if role == "unknown":
+                    # role from the name the reader calls (the class is private; this only selects which contract to report against)
+                    role = "pop-line" if "pop" in name else "trim-needle" if ("flag" in name or "start" in name) else "trim-pos" if "trim" in name else "clear" if "clear" in name else "unknown"
+                use.setdefault(name, set()).add(role)
+        for g, pol, ln in p.guards:
+            def walk(sv):
+                if isinstance(sv, tuple):
+                    if sv and sv[0] == "len" and sv[1] == buf0:
+                        use.setdefault("__len__", set()).add("len")
+                    for x in sv:
+                        walk(x)
+            walk(g)
+    return use
+
+
 def buffer_contracts(m: P1Model):
+    """E-SEQ: every buffer method the P1 reader uses satisfies the contract of its role (abstract evaluation, see sa/seqbuf.py)"""
     res = []
-    M = m.M
-    cls = M.classes.get(m.buffer_cls)
-    data_f = [a for a, v in cls.field_inits.items() if isinstance(v, ast.Call) and isinstance(v.func, ast.Name) and v.func.id == "bytearray"]
-    pos_f = [a for a, v in cls.field_inits.items() if isinstance(v, ast.Constant) and v.value == 0]
-    if len(data_f) != 1 or len(pos_f) != 1:
-        return [Result("undecided", "buffer", "fields", "cannot bind P1 buffer fields")]
-    D, P = ("f0", SELF, data_f[0]), ("f0", SELF, pos_f[0])
-    # pop: LF-terminated line from pos, advance by its length; None without advancing otherwise
-    fn = cls.methods.get("pop")
-    if fn is None:
-        return [Result("undecided", "buffer", "pop", "pop not found")]
-    ps = Engine(M).run(fn)
-    good = 0
-    for p in ps:
-        if p.status != "return":
-            continue
-        w = [e for e in p.effects if e[0] in ("write", "mutate")]
-        if p.ret == ("c", None):
-            if not w:
-                good += 1
-            continue
-        r = p.ret
-        # ret = buffer[pos : find(LF, pos)+1]
-        okr = (r[0] == "slice" and r[1] == D and r[2] == P and r[3] is not None and r[3][0] == "op" and r[3][1] == "Add" and r[3][3] == ("c", 1)
-               and r[3][2][0] == "call" and r[3][2][1].endswith(".find") and r[3][2][2][-2:] == (("c", LF), P))
-        found = any(g[0] == "cmp" and g[2] == (r[3][2] if okr else None) and ((g[1] == "Lt" and g[3] == ("c", 0) and not pol) or (g[1] == "Eq" and g[3] == ("c", -1) and not pol) or (g[1] == "LtE" and g[3] == ("c", -1) and not pol)) for g, pol, _ in p.guards)
-        adv = len(w) == 1 and w[0][0] == "write" and w[0][2] == pos_f[0] and (w[0][3] == ("op", "Add", P, ("len", r, 0)) or (okr and w[0][3] == r[3]))
-        if okr and found and adv:
-            good += 1
-    if good == len(ps) and any(p.ret != ("c", None) for p in ps):
-        res.append(Result("ok", "buffer", "pop", "returns the next LF-terminated line and advances by exactly its length; returns None without advancing when no complete line is buffered"))
-    else:
-        res.append(Result("bad", "buffer", "pop", "pop() is not `next LF-terminated line, advance by its length, else None without advancing`", fn.node.lineno,
-                          witness=f"{good} of {len(ps)} paths conform"))
-    # extend / clear / trims (same shapes as the HDLC buffer)
-    fn = cls.methods.get("extend")
-    if fn is not None:
-        ps = Engine(M).run(fn)
-        e = [x for p in ps for x in p.effects if x[0] in ("write", "mutate")]
-        if len(ps) == 1 and len(e) == 1 and e[0][0] == "mutate" and e[0][1] == D and e[0][2] == "extend" and e[0][3] == (("p", fn.params[0]),):
-            res.append(Result("ok", "buffer", "extend", "appends the chunk at the end of the buffer"))
-        else:
-            res.append(Result("bad", "buffer", "extend", "extend() does not simply append the chunk", fn.node.lineno))
-    fn = cls.methods.get("trim_buffer_to_current_position")
-    if fn is not None:
-        ps = Engine(M).run(fn)
-        w = [x[:4] for p in ps for x in p.effects if x[0] in ("write", "mutate")]
-        if len(ps) == 1 and w == [("write", SELF, data_f[0], ("slice", D, P, None)), ("write", SELF, pos_f[0], ("c", 0))]:
-            res.append(Result("ok", "buffer", "trim-to-position", "buffer := buffer[pos:]; pos := 0"))
-        else:
-            res.append(Result("bad", "buffer", "trim-to-position", "trim is not `buffer = buffer[pos:]; pos = 0`", fn.node.lineno))
-    fn = cls.methods.get("clear")
-    if fn is not None:
-        ps = Engine(M).run(fn)
-        w = [x for p in ps for x in p.effects if x[0] in ("write", "mutate")]
-        okc = len(ps) == 1 and any(x[0] == "mutate" and x[1] == D and x[2] == "clear" or (x[0] == "write" and x[2] == data_f[0] and x[3][0] in ("new", "call")) for x in w) \
-            and any(x[0] == "write" and x[2] == pos_f[0] and x[3] == ("c", 0) for x in w)
-        if okc:
-            res.append(Result("ok", "buffer", "clear", "empties the buffer and resets the position"))
-        else:
-            res.append(Result("bad", "buffer", "clear", "clear() does not empty the buffer and reset the position", fn.node.lineno))
-    fn = cls.methods.get("trim_buffer_to_flag_or_end")
-    if fn is not None:
-        ps = Engine(M).run(fn)
-        D1 = ("slice", D, P, None)
-        okc = 0
-        for p in ps:
-            lits = {}
-            findsv = None
-            for g, pol, ln in p.guards:
-                if g[0] == "cmp" and g[2][0] == "call" and g[2][1].endswith(".find") and g[3][0] == "c":
-                    findsv = g[2]
-                    lits[(g[1], g[3][1])] = pol
-            if findsv is None or findsv[2] != (D1, ("c", SLASH)):
+    B = m.buf
+    seen = set()
+    for name, roles in sorted(buffer_usage(m).items()):
+        for role in sorted(roles):
+            seen.add(role)
+            if role == "unknown":
+                res.append(Result("undecided", "buffer", name, f"buffer method {name}() used by the reader matches no known buffer operation"))
                 continue
-            w = [x for x in p.effects if x[0] in ("write", "mutate")]
-            if [x[:4] for x in w[:2]] != [("write", SELF, data_f[0], D1), ("write", SELF, pos_f[0], ("c", 0))]:
-                continue
-            rest = w[2:]
-            if lits.get(("Eq", -1)) is True:
-                good = any(x[0] == "mutate" and x[2] == "clear" for x in rest)
-            elif lits.get(("LtE", 0)) is False or lits.get(("Gt", 0)) is True:
-                good = any(x[0] == "write" and x[2] == data_f[0] and x[3] == ("slice", D1, findsv, None) for x in rest)
+            inst = BUF_INSTANCE[role]
+            v = B.check(name, role, LF if role == "pop-line" else SLASH if role == "trim-needle" else None)
+            if v.ok is True:
+                res.append(Result("ok", "buffer", inst, f"{name}(): {BUF_TEXT[role]}"))
+            elif v.ok is False:
+                res.append(Result("bad", "buffer", inst, f"input buffer, used as `{BUF_TEXT[role]}`: {v.why}", v.line, witness=v.witness))
             else:
-                good = not any((x[0] == "write" and x[2] == data_f[0]) or x[0] == "mutate" for x in rest)
-            if good and all(x[3] == ("c", 0) for x in rest if x[0] == "write" and x[2] == pos_f[0]):
-                okc += 1
-        if okc == len(ps) == 3:
-            res.append(Result("ok", "buffer", "trim-to-start", "= trim to position, then drop everything before the first '/', or everything if there is none"))
-        else:
-            res.append(Result("bad", "buffer", "trim-to-start", "hunt-mode trim is not `trim to position; drop bytes before the first '/' (all if none)`", fn.node.lineno, witness=f"{okc} of {len(ps)} cases conform"))
+                res.append(Result("undecided", "buffer", inst, v.why))
+    for role in ("pop-line", "extend", "trim-pos", "trim-needle"):
+        if role not in seen:
+            res.append(Result("undecided", "buffer", BUF_INSTANCE[role], f"the reader does not use a buffer operation in the role `{BUF_TEXT[role]}`"))
     return res
